@@ -397,8 +397,49 @@ func (s *st) step() {
 			s.out = append(s.out, f)
 		case ty.K == m.Str || ty.K == m.Map:
 			s.made["loop-var"] = true
+			// the loop variable (a character or a key) is copied out through every kind of sink and
+			// the copies are observed at the start of the next iteration, while the loop goes on
 			n := s.fresh()
-			s.out = append(s.out, &m.Decl{Name: n, Ty: m.TStr, Typed: true}, &m.ForIn{V: "e", X: v, Body: []m.Stmt{&m.Assign{Target: &m.Var{Name: n, Ty: m.TStr}, Val: &m.Var{Name: "e", Ty: m.TStr}}}})
+			nv, ev := &m.Var{Name: n, Ty: m.TStr}, &m.Var{Name: "e", Ty: m.TStr}
+			obs := []m.Expr{m.StrLit("in-loop"), ev, nv}
+			sinks := []m.Stmt{&m.Assign{Target: nv, Val: ev}}
+			nsinks := rapid.IntRange(0, 3).Draw(s.t, "nsinks")
+			for j := 0; j < nsinks; j++ {
+				switch rapid.IntRange(0, 4).Draw(s.t, "sink") {
+				case 0:
+					if a, ok := s.pick(tStrs); ok && a.Name != v.Name {
+						s.made["loop-var-str:index-store"] = true
+						obs = append(obs, a)
+						sinks = append(sinks, &m.If{
+							Conds:  []m.Expr{&m.Binary{Op: ">", L: &m.Call{Fn: "len", Args: []m.Expr{m.AsAny(a)}, Ty: m.TNum}, R: m.NumLit(0), Ty: m.TBool}},
+							Blocks: [][]m.Stmt{{&m.Assign{Target: &m.Index{X: a, I: m.NumLit(float64(rapid.IntRange(-1, 0).Draw(s.t, "idx"))), Ty: m.TStr}, Val: ev}}},
+						})
+					}
+				case 1:
+					if mp, ok := s.pick(tMapS); ok && mp.Name != v.Name {
+						s.made["loop-var-str:key-store"] = true
+						obs = append(obs, mp)
+						sinks = append(sinks, &m.Assign{Target: &m.Dot{X: mp, Key: "loop", Ty: m.TStr}, Val: ev})
+					}
+				case 2:
+					if a, ok := s.pick(m.TAny); ok {
+						s.made["loop-var-str:any"] = true
+						obs = append(obs, a)
+						sinks = append(sinks, &m.Assign{Target: a, Val: m.AsAny(ev)})
+					}
+				case 3:
+					if a, ok := s.pick(tStrs); ok && a.Name != v.Name {
+						s.made["loop-var-str:concat"] = true
+						obs = append(obs, a)
+						sinks = append(sinks, &m.Assign{Target: a, Val: &m.Binary{Op: "+", L: a, R: &m.ArrLit{Ty: tStrs, Elems: []m.Expr{ev}}, Ty: tStrs}})
+					}
+				default: // the other direction: the loop variable is overwritten, the copy must stay
+					s.made["loop-var-str:assigned"] = true
+					sinks = append(sinks, &m.Assign{Target: ev, Val: m.StrLit("w")}, gen.Print(m.StrLit("after-write"), ev, nv))
+				}
+			}
+			body := append([]m.Stmt{gen.Print(obs...)}, sinks...)
+			s.out = append(s.out, &m.Decl{Name: n, Ty: m.TStr, Typed: true}, &m.ForIn{V: "e", X: v, Body: body})
 			s.vars = append(s.vars, vinfo{n, m.TStr})
 		}
 	case 17, 18: // capture err / errmsg by one of the routes
